@@ -334,6 +334,21 @@ def check_alignment_case(num, A, B, rng, fl, tag, n_perturb, relation, Q0, M):
     if abs(r1 - np.sqrt(mine / n)) > 1e-12 * (1 + np.sqrt(scale / n)) or abs(r1 ** 2 - expect ** 2) * n > tol:
         fl.record("rmsd", "rmsd_points(A, B) == sqrt(sum|A.R - B|^2 / N) == the minimum over proper rotations", pack(A, B, **info),
                   {"rmsd_points": r1, "sqrt(sum|A.R-B|^2/N)": float(np.sqrt(mine / n)), "optimum": expect})
+    # -- other argument forms of the same point sets: integer-valued coordinates given as an integer array / nested lists (lattice or grid points)
+    Ai = np.round(A * 3).astype(int)
+    if np.linalg.matrix_rank(Ai - Ai.mean(axis=0)) >= 2:
+        Bi = Ai.astype(float) @ (R if abs(det - 1) <= TOL_ORTH and orth <= TOL_ORTH else random_rotation(rng))
+        ref = np.asarray(num.reorient_points(Ai.astype(float), Bi.copy()))
+        for form, Aform in (("int64 array", Ai.copy()), ("nested list of ints", Ai.tolist())):
+            fl.evaluations += 1
+            try:
+                got = np.asarray(num.reorient_points(Aform, Bi.copy()), dtype=float)
+                rr = float(num.rmsd_points(Ai.copy() if form.startswith("int") else Ai.tolist(), Bi.copy()))
+                if got.shape != ref.shape or np.abs(got - ref).max() > 1e-9 * (1 + np.abs(ref).max()) or rr > 1e-8 * (1 + np.abs(Bi).max()):
+                    fl.record("argument_forms", "integer-typed coordinates give the same aligned points as the same coordinates as floats (congruent sets: rmsd 0)",
+                              pack(Ai.astype(float), Bi, form=form, **info), {"max|got - float result|": float(np.abs(got - ref).max()) if got.shape == ref.shape else None, "rmsd_points": rr})
+            except Exception as e:  # noqa
+                fl.record("argument_forms", "integer-typed coordinates are accepted like floats", pack(Ai.astype(float), Bi, form=form, **info), {"raised": repr(e)[:160]})
     r0 = float(num.rmsd_points(A.copy(), B.copy(), reorient=None))
     fl.evaluations += 1
     plain = float(np.sqrt(np.vdot(B - A, B - A) / n))
@@ -387,6 +402,27 @@ def check_dimer_case(A, B, rng, fl, tag, relation):
         dev = float(np.abs(img - pb).max())
         if dev > 1e-9 * (1 + np.abs(pb).max()):
             fl.record("dimer", "for congruent molecules transform_ab carries molecule a onto molecule b exactly", inp, {"max deviation": dev, "R": R.tolist(), "v_ab": v.tolist()})
+    # the same molecules after they were inspected and then moved (in place and as moved copies): the transform refers to where they are NOW
+    _ = (ma.centroid, mb.centroid, ma.center_of_mass, mb.center_of_mass)
+    sh_a, sh_b = rng.normal(size=3) * 3, rng.normal(size=3) * 3
+    Qm = random_rotation(rng)
+    ma2 = ma.translated(sh_a)
+    mb.translate(sh_b)
+    mb.rotate(Qm, origin=(0, 0, 0))
+    pa2, pb2 = pa + sh_a, (pb + sh_b) @ Qm.T if np.allclose(np.asarray(mb.positions), (pb + sh_b) @ Qm.T, atol=1e-9) else np.asarray(mb.positions).copy()
+    d3 = Dimer(ma2, mb, transform_ab="calculate")
+    fl.evaluations += 1
+    t3 = d3.transform_ab
+    if isinstance(t3, tuple) and len(t3) == 2:
+        R3, v3 = np.asarray(t3[0]), np.asarray(t3[1])
+        ca2, cb2 = pa2.mean(axis=0), pb2.mean(axis=0)
+        X3, Y3 = pb2 - cb2, pa2 - ca2
+        sc3 = float(np.vdot(X3, X3) + np.vdot(Y3, Y3)) + 1e-300
+        if np.abs(v3 - (cb2 - ca2)).max() > 1e-9 * (1 + np.abs(cb2 - ca2).max()) or sq_residual(X3, R3, Y3) > sc3 - 2 * horn_max_trace(X3.T @ Y3) + TOL_REL * sc3:
+            fl.record("dimer", "after the molecules were inspected (centroid / centre of mass read) and then moved, the transform is that of their current positions",
+                      dict(inp, history="read centroid; a.translated(s); b.translate(s'); b.rotate(Q); Dimer(a', b)"), {"v_ab": v3.tolist(), "expected_v_ab": (cb2 - ca2).tolist()})
+    else:
+        fl.record("dimer", "moved molecules with identical element lists have a transform", inp, {"transform_ab": repr(t3)})
     # unequal sizes / different elements -> None
     if n > 3:
         d2 = Dimer(ma, Molecule(list(els[:-1]), pb[:-1].copy()), transform_ab="calculate")
